@@ -20,6 +20,8 @@ structure Ent (V : Type) where
   val : V
   deriving Repr, DecidableEq, Inhabited
 
+def Ent.setVal {V : Type} (e : Ent V) (v : V) : Ent V := ⟨e.key, e.exp, v⟩
+
 structure St (V : Type) where
   tree : T (Ent V)
   pool : Pool
@@ -131,7 +133,7 @@ def St.valueByIndex (st : St V) (slot : Nat) : Option V := (st.tree.atSlot slot)
 def T.setAtSlot (slot : Nat) (v : V) : T (Ent V) → T (Ent V)
   | .leaf => .leaf
   | .node c l s e r =>
-    if s == slot then .node c l s { e with val := v } r
+    if s == slot then .node c l s (e.setVal v) r
     else .node c (l.setAtSlot slot v) s e (r.setAtSlot slot v)
 
 /-- `*value_by_index_mut(slot) = v` -/
